@@ -35,6 +35,9 @@ def api_family(rp, only=None):
         ("method-parameters", "class A\n    def m(self, p: Int, q: Int := 2) -> Int => p - q", "print(A().m(5), A().m(q=1, p=9))", "3 8"),
         ("constructor-class-arguments", "class P(def x: Int, def y: Int := 7)", "p = P(1); q = P(y=2, x=3); print(p.x, p.y, q.x, q.y)", "1 7 3 2"),
         ("constructor-user-init", "class B\n    def v: Int := 0\n    def __init__(self, a: Int, b: Int) => self.v := a - b", "print(B(5, 2).v, B(b=1, a=9).v)", "3 8"),
+        ("constructor-parent-then-user", "class Base(def name: Str)\nclass C: Base(\"fixed\")\n    def extra: Int := 0\n    def __init__(self, n: Int) => self.extra := n + 1",
+         "c = C(4); print(c.name, c.extra)", "fixed 5"),
+        ("constructor-field-from-class-argument", "class Base(def name: Str)\nclass C(def n: Int, tag: Str): Base(tag)", "c = C(4, 't'); print(c.n, c.name, hasattr(c, 'tag'))", "4 t False"),
         ("constructor-with-parent", "class Base(def name: Str)\nclass C(def n: Int): Base(\"c\")", "c = C(4); print(c.n, c.name, [k.__name__ for k in C.__bases__])", "4 c ['Base']"),
         ("inheritance-order", "class M1\n    def who(self) -> Str => \"m1\"\nclass M2\n    def who(self) -> Str => \"m2\"\nclass D: M1, M2",
          "print(D().who(), [k.__name__ for k in D.__bases__])", "m1 ['M1', 'M2']"),
@@ -272,6 +275,104 @@ def ob_class_closures(run, mir, rp):
         ob.inconclusive(str(e))
 
 
+def ob_constructor_assembly(run, mir, rp):
+    ob = run.ob("constructor-assembly", "E2", "class.rs init: the constructor body is [one `Parent.__init__(self, <parent args>)` per parent, in "
+                "order] ++ [the user's constructor statements] ++ [`self.x = x` for the class arguments that were not handed to a parent]; the "
+                "closures build exactly those calls and assignments", ["init", "init::{closure#0..3}"])
+    try:
+        ex = Exec(mir, max_paths=2000)
+        claims = []
+
+        def one(name, argty_pred):
+            c = [f for n, f in mir.fns.items() if re.match(r"^init::\{closure#\d+\}$", n) and len(f.args) == 2 and argty_pred(f)]
+            if len(c) != 1:
+                raise Unsupported(f"init closure {name}: {len(c)} candidates")
+            return c[0]
+        f0 = one("parent call", lambda f: f.args[1][1].strip() == "&Core" and f.ret.replace(" ", "") == "(Core,Vec<Core>)")
+        f1 = one("argument variable", lambda f: f.args[1][1].strip() == "&Core" and f.ret.replace(" ", "") == "Option<Core>")
+        f3 = one("assignment", lambda f: f.args[1][1].strip() == "Core" and f.ret.strip() == "Core")
+        is_id = lambda v, s_: isinstance(v, Agg) and v.variant == "Id" and isinstance(v.fields[0], StrC) and v.fields[0].s == s_
+        for shape in ("call", "type"):
+            st = State()
+            lit = e2.opq("p.lit", "String")
+            ty = e2.mk_variant(NODE_RS, "Core", "Type", {"lit": lit, "generics": e2.opq("p.generics", "Vec<Core>")})
+            pargs = e2.opq("p.args", "Vec<Core>")
+            par = ty if shape == "type" else e2.mk_variant(NODE_RS, "Core", "FunctionCall", {"function": ty, "args": pargs})
+            env = Ref(ex.new_cell(st, Agg("closure", f0.args[0][1].lstrip("&").replace("mut ", "").strip(), [])))
+            ends = e2.run_kernel(run, ex, f0, [env, Ref(ex.new_cell(st, par))], st)
+            rets = [p for p in ends if p.kind == "return"]
+            ok = False
+            if len(rets) == 1 and isinstance(rets[0].ret, Agg) and len(rets[0].ret.fields) == 2:
+                call, args = rets[0].ret.fields
+                if isinstance(call, Agg) and call.variant == "PropertyCall":
+                    obj, prop = call.fields
+                    good_obj = isinstance(obj, Agg) and obj.variant == "Id" and z3.eq(ex.to_val(st, obj.fields[0]), lit.term)
+                    good_prop = isinstance(prop, Agg) and prop.variant == "FunctionCall" and is_id(prop.fields[0], "__init__")
+                    if good_obj and good_prop and isinstance(prop.fields[1], Seq) and isinstance(args, Seq):
+                        parts = prop.fields[1].parts
+                        self_first = bool(parts) and parts[0][0] == "item" and is_id(parts[0][1], "self")
+                        rest_ok = (len(parts) == 1) if shape == "type" else (len(parts) == 2 and parts[1][0] == "opq" and z3.eq(parts[1][1], pargs.term))
+                        same_args = str(prop.fields[1]) == str(args)
+                        ok = self_first and rest_ok and same_args
+            claims.append(z3.BoolVal(bool(ok)))
+        # assignment closure: self.<var> = <var>
+        st = State()
+        var = e2.opq("var", "Core")
+        env = Ref(ex.new_cell(st, Agg("closure", f3.args[0][1].lstrip("&").replace("mut ", "").strip(), [])))
+        ends = e2.run_kernel(run, ex, f3, [env, var], st)
+        rets = [p for p in ends if p.kind == "return"]
+        ok = False
+        if len(rets) == 1 and isinstance(rets[0].ret, Agg) and rets[0].ret.variant == "Assign":
+            a = rets[0].ret
+            left, right, op = (a.fields[list(a.names).index(n)] for n in ("left", "right", "op"))
+            ok = isinstance(left, Agg) and left.variant == "PropertyCall" and is_id(left.fields[0], "self") and \
+                z3.eq(ex.to_val(st, left.fields[1]), var.term) and z3.eq(ex.to_val(st, right), var.term) and isinstance(op, Agg) and op.variant == "Assign"
+        claims.append(z3.BoolVal(bool(ok)))
+        # argument-variable closure: FunArg -> its variable, anything else -> nothing
+        st = State()
+        favar = e2.opq("fa.var", "Box<Core>")
+        fa = e2.mk_variant(NODE_RS, "Core", "FunArg", {"vararg": z3.Bool("fa.vararg"), "var": favar, "ty": e2.opq("fa.ty", "?"), "default": e2.opq("fa.default", "?")})
+        env = Ref(ex.new_cell(st, Agg("closure", f1.args[0][1].lstrip("&").replace("mut ", "").strip(), [])))
+        ends = e2.run_kernel(run, ex, f1, [env, Ref(ex.new_cell(st, fa))], st)
+        rets = [p for p in ends if p.kind == "return"]
+        ok = len(rets) == 1 and isinstance(rets[0].ret, Agg) and rets[0].ret.variant == "Some" and z3.eq(ex.to_val(st, rets[0].ret.fields[0]), favar.term)
+        claims.append(z3.BoolVal(bool(ok)))
+        # order of the three parts in init
+        lay = e2.rust_enum(NODE_RS, "Core")
+        fn = e2.find1(mir, file=CLASS_RS, name="init")
+        exi = Exec(mir, max_paths=20000)
+        sti = State()
+        body = e2.mk_variant(NODE_RS, "Core", "Block", {"statements": e2.opq("user.statements", "Vec<Core>")})
+        fields = {f: e2.opq("old_init." + f, "?") for f in lay["FunDef"]}
+        fields["body"] = body
+        fundef = e2.mk_variant(NODE_RS, "Core", "FunDef", fields)
+        oi = Agg("Option", "Some", [Ref(exi.new_cell(sti, fundef))])
+        args = [Ref(exi.new_cell(sti, oi)), Ref(exi.new_cell(sti, e2.opq("class_args", "[Core]"))), Ref(exi.new_cell(sti, e2.opq("parents", "[Core]")))]
+        ends = e2.run_kernel(run, exi, fn, args, sti)
+        n_some = 0
+        for p in ends:
+            if p.kind != "return" or not (isinstance(p.ret, Agg) and p.ret.variant == "Ok"):
+                continue
+            r = p.ret.fields[0]
+            if not (isinstance(r, Agg) and r.variant == "Some"):
+                continue
+            n_some += 1
+            fd = r.fields[0]
+            b = fd.fields[list(fd.names).index("body")]
+            stmts = b.fields[0] if isinstance(b, Agg) and b.variant == "Block" else None
+            ok = False
+            if isinstance(stmts, Seq) and len(stmts.parts) == 3 and all(pt[0] == "opq" for pt in stmts.parts):
+                t0, t1, t2 = (str(pt[1]).replace("\n", " ") for pt in stmts.parts)
+                ok = ("unzip" in t0 and "parents" in t0 and t0.lstrip().startswith("p0:")) and ("user.statements" in t1) and \
+                    ("class_args" in t2 and "filter" in t2 and "flat_map" in t2)
+            claims.append(z3.Implies(conj(p.cond), z3.BoolVal(bool(ok))))
+        if not n_some:
+            raise Unsupported("init: no constructor path")
+        e2.prove_each(run, ob, exi, [], claims, {}, fam_replay(rp, "constructor-assembly", only=["constructor-"]))
+    except Unsupported as e:
+        ob.inconclusive(str(e))
+
+
 def run(run):
     mir = e2.load_mir(run)
     rp = common.Replay()
@@ -292,6 +393,7 @@ def run(run):
     ob_operator_table(run, mir, rp)
     ob_init_arguments(run, mir, rp)
     ob_class_closures(run, mir, rp)
+    ob_constructor_assembly(run, mir, rp)
     if run.clean():
         n, bad = api_family(rp)
         run.validated += n
